@@ -7,9 +7,11 @@ Derivers and exclude predicates come from a fixed menu that exists under the sam
 """
 from __future__ import annotations
 
+import collections
 import copy
 import itertools
 import json
+import math
 
 import pfimport  # noqa: F401
 from pfimport import exc_enum
@@ -19,7 +21,7 @@ from pipefunc.sweep import MultiSweep, Sweep, count_sweep, generate_sweep
 import framework
 
 PID = "C17"
-PROPS = ["PfModel.Props.C17"]
+PROPS = ["PfModel.Props.C17", "PfModel.Props.C17Ext"]
 DRIVER = "C17"
 RULE = ("sweeps over <= 4 dimensions (names a..h) with value lists of length 0..3 drawn with repeats from small ints and strings; dims is "
         "None or an ordered partition of the names into groups (names as str or tuples; zipped groups made equally long 85% of "
@@ -31,8 +33,11 @@ RULE = ("sweeps over <= 4 dimensions (names a..h) with value lists of length 0..
 ASSUMPTIONS = ["derivers and exclude predicates are total functions of the combination taken from a fixed menu (the theorems hold for arbitrary ones)",
                "values are hashable ints / strings / None / tagged tuples; unhashable values are not modelled",
                "dictionaries are compared as mappings (key order inside one combination is not observed)",
-               "count_sweep: pipeline.func_dependencies / root_args are checked against a reachability computation of the harness; "
-               "the model counts with the root arguments in the order the pipeline reports them"]
+               "count_sweep: func_dependencies / root_args come from the pipeline model of C02 (PF.Pipe.funcDeps / rootArgs) on the model side "
+               "and are compared with the implementation's and with a reachability computation of the harness; generated pipelines have "
+               "single-output functions without defaults or bound values",
+               "count_sweep(use_pandas=True) is compared with the default path only where a DataFrame round-trips the values (ints, >= 1 combination); "
+               "a scalar key of a single root argument is read as a 1-tuple"]
 
 NAMES = list("abcdefgh")
 
@@ -525,8 +530,10 @@ def run_impl(case):
         if "err" in p:
             if product_clause_applies(ops):
                 bad.append(f"product of sweeps with disjoint keys raised {p['err']}")
+            bad += product_direct(ops)
             return p, bad, req
         o, lst, bad = observe(p["ok"])
+        bad += product_direct(ops)
         if product_clause_applies(ops):
             want = product_ref(ops)
             ordered = all(nominal(x) for x in ops)
@@ -557,10 +564,14 @@ def run_impl(case):
                 bad.append(f"list() of the filtered sweep raised {o['list']['err']}")
             elif not eq_multiset(lst, want):
                 bad.append(f"filtered_sweep(keys) does not yield the distinct projections onto keys ({len(lst)} vs {len(want)})")
+            elif filtered_ordered(a["s"]) and not eq_dicts(lst, want):
+                bad.append(ORDER_ONLY + "filtered_sweep(keys) yields the distinct projections onto keys in another order than their first "
+                           "occurrence (the property fixes no order here; C17_filtered_derivers / C17_filtered_plain do)")
         return {"ok": o}, bad, req
     if m == "count":
         s = mk_sweep(a["s"])
         pipe = make_pipeline(a["funcs"])
+        case_ = case
         deps = attempt(lambda: [[o, list(pipe.root_args(o))] for o in pipe.func_dependencies(a["output"])])
         if "err" in deps:
             return deps, ["func_dependencies / root_args raised " + deps["err"]], None
@@ -569,14 +580,14 @@ def run_impl(case):
             bad.append("func_dependencies / root_args differ from reachability in the generated pipeline")
         cnt = attempt(lambda: count_sweep(a["output"], s, pipe))
         cnt_l = attempt(lambda: count_sweep(a["output"], s.list(), pipe))
-        req = {"m": "count", "a": {"s": sweep_req(a["s"]), "deps": deps["ok"]}}
+        req = {"m": "count_pipe", "a": {"s": sweep_req(a["s"]), "funcs": a["funcs"], "output": a["output"]}}
         if cnt_l != cnt and not ("err" in cnt and "err" in cnt_l):
             bad.append("count_sweep(Sweep) differs from count_sweep(sweep.list())")
         if "err" in cnt:
             lst = attempt(lambda: s.list())
             if "ok" in lst and all(k in c for c in lst["ok"] for _, r in deps["ok"] for k in r):
                 bad.append(f"count_sweep raised {cnt['err']}")
-            return cnt, bad, req
+            return dict(cnt, deps=sorted([o, list(r)] for o, r in deps["ok"])), bad, req
         lst = s.list()
         for o, r in deps["ok"]:
             want = {}
@@ -588,9 +599,66 @@ def run_impl(case):
                 bad.append(f"count_sweep[{o}] does not count the combinations sharing each root-argument tuple {tuple(r)}")
         if sorted(cnt["ok"]) != sorted(o for o, _ in deps["ok"]):
             bad.append("count_sweep reports other dependencies than func_dependencies")
+        bad += count_pandas(case_, s, pipe, lst, deps["ok"], cnt["ok"])
         canon = sorted([o, sorted(([[to_js(x) for x in key], n] for key, n in d.items()), key=jkey)] for o, d in cnt["ok"].items())
-        return {"ok": canon}, bad, req
+        return {"ok": canon, "deps": sorted([o, list(r)] for o, r in deps["ok"])}, bad, req
     raise AssertionError(m)
+
+
+def count_pandas(case, s, pipe, lst, deps, default):
+    """`count_sweep(..., use_pandas=True)` against the default path, on the domain where a DataFrame round-trips the values:
+    at least one combination and only ints in the root-argument columns (a single root argument comes back as a scalar key;
+    it is compared as a 1-tuple).  Outside that domain the pandas path deviates (see DF-C17-02 in the report)."""
+    forced = case.get("pandas") == "force"
+    cols = sorted({k for _, r in deps for k in r})
+    if not forced and (not lst or not all(is_int(c.get(k)) for c in lst for k in cols)):
+        return []
+    STATS["count:pandas"] += 1
+    got = attempt(lambda: count_sweep(case["a"]["output"], s, pipe, use_pandas=True))
+    if "err" in got:
+        return [f"count_sweep(use_pandas=True) raised {got['err']} where the default path returns counts"]
+    for o, d in default.items():
+        g = got["ok"].get(o)
+        canon = None if g is None else {tuple(to_js_num(x) for x in (k if isinstance(k, tuple) else (k,))): int(n) for k, n in g.items()}
+        if canon != {tuple(to_js_num(x) for x in k): n for k, n in d.items()}:
+            return [f"count_sweep(use_pandas=True)[{o}] does not count the combinations sharing each root-argument tuple (differs from the default path)"]
+    return []
+
+
+def to_js_num(x):
+    try:
+        import numpy as np
+        if isinstance(x, np.integer):
+            return int(x)
+        if isinstance(x, np.floating) and float(x).is_integer():
+            return int(x)
+    except Exception:  # noqa: BLE001
+        pass
+    return x
+
+
+@framework.finding_matcher("c17_count_pandas_none")
+def _df_pandas_none(case, params, impl, model):
+    """count_sweep(use_pandas=True) on a sweep whose root-argument columns contain None: pandas' groupby drops those rows
+    (dropna=True) and turns the remaining ints into floats.  Matches only the forced corpus case shape, only if the default
+    path agrees with the model and only if the pandas counts are exactly the default counts without the tuples that contain None."""
+    if case.get("m") != "count" or case.get("pandas") != "force" or impl != model:
+        return False
+    try:
+        s = mk_sweep(case["a"]["s"])
+        pipe = make_pipeline(case["a"]["funcs"])
+        default = count_sweep(case["a"]["output"], s, pipe)
+        got = count_sweep(case["a"]["output"], s, pipe, use_pandas=True)
+    except Exception:  # noqa: BLE001
+        return False
+    if not any(None in k for d in default.values() for k in d):
+        return False
+    for o, d in default.items():
+        want = {k: n for k, n in d.items() if None not in k}
+        g = {tuple(to_js_num(x) for x in (k if isinstance(k, tuple) else (k,))): int(n) for k, n in got.get(o, {}).items()}
+        if g != want:
+            return False
+    return True
 
 
 def product_clause_applies(ops):
@@ -598,6 +666,68 @@ def product_clause_applies(ops):
         return False
     ks = [k for x in ops for k in set(produced_keys(x))]
     return len(ks) == len(set(ks))
+
+
+def df07_shape(ops):
+    """the receiver has dims=None while another operand has dims (known finding DF-07; excluded by `ProductHyps.df07`)"""
+    return ops[0].get("dims") is None and any(o.get("dims") is not None for o in ops[1:])
+
+
+def strip_fns(j):
+    return {"items": j["items"], "dims": j.get("dims"), "exclude": None, "constants": None, "derivers": None}
+
+
+def fns_disjoint_local(ops):
+    ks = [k for x in ops for k in set(produced_keys(x))]
+    return len(ks) == len(set(ks)) and all(local(x) for x in ops)
+
+
+STATS = collections.Counter()
+
+
+def product_direct(ops):
+    """The product clause evaluated on the implementation alone, for every product of well-formed operands with pairwise
+    disjoint dimension names outside the DF-07 shape: `list()` of the product against the merged `itertools.product` of the
+    operands' OWN `list()`s, and `len()` of the product against the product of the operands' OWN `len()`s — once with
+    constants / derivers / exclude removed from every operand (always applicable) and once as given (when the functions are
+    local and the produced names disjoint)."""
+    bad = []
+    if df07_shape(ops) or not all(well_formed(x) for x in ops):
+        return bad
+    names = [k for x in ops for k, _ in x["items"]]
+    if len(set(names)) != len(names):
+        return bad
+    ordered = all(nominal(x) for x in ops)
+    variants = [("with constants / derivers / exclude removed", [strip_fns(x) for x in ops])]
+    if fns_disjoint_local(ops) and any(x.get("exclude") or x.get("constants") is not None or x.get("derivers") is not None for x in ops):
+        variants.append(("as given", ops))
+    for label, vops in variants:
+        sws = [mk_sweep(x) for x in vops]
+        lists = [attempt(lambda s=s: s.list()) for s in sws]
+        lens = [attempt(lambda s=s: len(s)) for s in sws]
+        if any("err" in x for x in lists) or any("err" in x for x in lens):
+            continue                                            # an operand that raises on its own: the list clause reports it
+        STATS["product-direct:" + label.split()[0]] += 1
+        want = []
+        for combo in itertools.product(*[x["ok"] for x in lists]):
+            d = {}
+            for c in combo:
+                d.update(c)
+            want.append(d)
+        p = attempt(lambda: sws[0].product(*sws[1:]))
+        if "err" in p:
+            bad.append(f"product of {len(vops)} sweeps with disjoint keys ({label}) raised {p['err']}")
+            continue
+        got = attempt(lambda: p["ok"].list())
+        ln = attempt(lambda: len(p["ok"]))
+        if "err" in got:
+            bad.append(f"list() of the product of {len(vops)} sweeps with disjoint keys ({label}) raised {got['err']}")
+        elif not (eq_dicts(got["ok"], want) if ordered else eq_multiset(got["ok"], want)):
+            bad.append(f"product of {len(vops)} sweeps with disjoint keys ({label}) is not the Cartesian product of the operands' own "
+                       f"list()s ({len(got['ok'])} vs {len(want)} combinations)")
+        elif ln != {"ok": math.prod(x["ok"] for x in lens)} and not any(x.get("exclude") for x in vops):
+            bad.append(f"len(product) = {ln.get('ok', ln.get('err'))} but the operands' lens multiply to {math.prod(x['ok'] for x in lens)} ({label})")
+    return bad
 
 
 def product_ref(ops):
@@ -617,6 +747,16 @@ def filtered_clause_applies(j, ks):
     avail = set(produced_keys(j))
     specs = [d for _, d in (j.get("derivers") or [])]
     return bool(ks) and len(set(ks)) == len(ks) and all(k in avail for k in ks) and all(reads(s) is not None for s in specs)
+
+
+ORDER_ONLY = "order only: "      # a deviation the property statement does not forbid: reported as a correspondence item
+
+
+def filtered_ordered(j):
+    """the filtered sweep lists the projections in first-occurrence order: always in the derivers branch
+    (`C17_filtered_derivers`); in the other branch when the sweep enumerates in item order (dims omitted or in item order) —
+    a `dims` whose 1-tuples are permuted is rebuilt as plain names and then enumerated in item order (`sweep.py:120`)"""
+    return j.get("derivers") is not None or in_item_order(j)
 
 
 def sweep_req(j):
@@ -639,11 +779,15 @@ def canon_model(case, r):
     if m in ("list", "multi", "add"):
         return canon_model_obs(r)
     if m in ("product", "filtered"):
-        return {"ok": canon_model_obs(r["ok"])} if "ok" in r else r
+        return {"ok": canon_model_obs(r["ok"])} if "ok" in r else {"err": r["err"]}
     if m == "count":
-        if "err" in r:
+        if "err" in r:                                           # list() of the sweep raised, or the output is unknown
             return r
-        return {"ok": sorted([o, sorted(([key, n] for key, n in d), key=jkey)] for o, d in dict((o, d) for o, d in r["ok"]).items())}
+        deps = sorted([o, list(a)] for o, a in r["deps"]) if r.get("deps") is not None else None
+        if "err" in r["counts"]:
+            return {"err": r["counts"]["err"], "deps": deps}
+        return {"ok": sorted([o, sorted(([key, n] for key, n in d), key=jkey)] for o, d in dict((o, d) for o, d in r["counts"]["ok"]).items()),
+                "deps": deps}
     raise AssertionError(m)
 
 
@@ -719,6 +863,9 @@ def check_cases(ctx, cases):
         reqs.append(req)
         impls.append((case, o, bad))
     outs = ctx.lean(reqs)
+    for k, v in STATS.items():
+        ctx.count(k, v)
+    STATS.clear()
     for (case, o, bad), resp in zip(impls, outs):
         r = resp.get("r")
         model = canon_model(case, r)
@@ -733,13 +880,42 @@ def check_cases(ctx, cases):
                     ctx.violation(case, "model: generate differs from specList on a well-formed sweep", found_input=False,
                                   item="theorem:C17_list", model=model)
                 del spec
+        if case["m"] == "product" and r.get("hyps"):
+            ops = [case["a"]["s"], *case["a"]["others"]]
+            names = [k for x in ops for k, _ in x["items"]]
+            cnames = [k for x in ops for k, _ in (x.get("constants") or [])]
+            dnames = [k for x in ops for k, _ in (x.get("derivers") or [])]
+            if len(set(names)) == len(names) and len(set(cnames)) == len(cnames) and len(set(dnames)) == len(dnames):
+                ctx.count("theorem:C17_product_enum:covered")
+                if "ok" not in r or r["raw"] != r["prodraw"]:
+                    ctx.violation(case, "model: rawList of the product differs from prodAll of the operands' rawLists under ProductHyps",
+                                  found_input=False, item="theorem:C17_product_enum", model=model)
+                if fns_disjoint_local(ops):
+                    ctx.count("theorem:C17_product:covered")
+                    got = r.get("ok", {}).get("list", {}).get("ok")
+                    if got is None or [canon_model_combo(c) for c in got] != [canon_model_combo(c) for c in r["prodspec"]] \
+                            or r["ok"]["len"] != {"ok": len(r["prodspec"])}:
+                        ctx.violation(case, "model: list of the product differs from prodAll of the operands' specLists under ProductHyps",
+                                      found_input=False, item="theorem:C17_product", model=model)
+        if case["m"] == "filtered" and r.get("proj") is not None and case["a"]["s"].get("derivers") is not None and "ok" in r:
+            ctx.count("theorem:C17_filtered_derivers:covered")
+            if r["ok"]["list"] != {"ok": r["proj"]} or r["ok"]["len"] != {"ok": len(r["proj"])}:
+                ctx.violation(case, "model: list of the filtered sweep differs from the distinct projections (derivers branch)",
+                              found_input=False, item="theorem:C17_filtered_derivers", model=model)
+        if case["m"] == "filtered" and r.get("plain") is not None:
+            ctx.count("theorem:C17_filtered_plain:covered")
+            if "ok" not in r or r["ok"]["list"] != {"ok": r["plain"]} or r["ok"]["len"] != {"ok": len(r["plain"])}:
+                ctx.violation(case, "model: list of the filtered sweep differs from the distinct restrictions (branch without derivers)",
+                              found_input=False, item="theorem:C17_filtered_plain", model=model)
         res = o.get("ok", o) if case["m"] in ("product", "filtered") and isinstance(o, dict) else o
         if isinstance(res, dict) and "list" in res:
             ctx.count("result:" + ("err:" + res["list"]["err"] if "err" in res["list"] else "ok" if res["list"]["ok"] else "ok-empty"))
         elif isinstance(o, dict) and "err" in o:
             ctx.count(f"result:err:{o['err']}")
         ctx.record(case, nontrivial(case))
-        if bad:
+        if bad and bad[0].startswith(ORDER_ONLY):
+            ctx.violation(case, bad[0], found_input=False, item="correspondence:filtered:order", impl=o, model=model)
+        elif bad:
             ctx.violation(case, bad[0], impl=o, model=model)
         elif o != model:
             ctx.violation(case, f"implementation and model disagree on {case['m']} (the property's clauses hold on this input)",
@@ -780,8 +956,31 @@ def exhaustive_cases(max_keys):
                 yield {"m": "list", "a": {"items": items, "dims": dims, "exclude": None, "constants": None, "derivers": None}}
 
 
+PANDAS_NONE_CASE = {"m": "count", "pandas": "force",                                                              # DF-C17-02 (known finding)
+                    "a": {"s": {"items": [["a", [1, None, 1]], ["b", [3, 4]]]},
+                          "funcs": [["c", ["a"]], ["d", ["a", "b"]], ["e", ["c", "d"]]], "output": "e"}}
+
+
+def exhaustive_products():
+    lists = [[0], [0, 1], [1, 1]]
+
+    def operands(keys):
+        for nk in (1, 2):
+            ks = keys[:nk]
+            for vals in itertools.product(lists, repeat=nk):
+                for dims in ordered_partitions(ks):
+                    yield {"items": [[k, v] for k, v in zip(ks, vals)], "dims": dims, "exclude": None, "constants": None, "derivers": None}
+
+    right = list(operands(["c", "d"]))
+    for left in operands(["a", "b"]):
+        for r in right:
+            yield {"m": "product", "a": {"s": left, "others": [r]}}
+
+
 def run(ctx):
     check_cases(ctx, [copy.deepcopy(c) for c in CORPUS])
+    if any(f.get("id") == "DF-C17-02" for f in ctx.findings):       # only once the finding is registered (else it would be a VIOLATION)
+        check_cases(ctx, [copy.deepcopy(PANDAS_NONE_CASE)])
     if ctx.tier == "thorough":
         ex = list(exhaustive_cases(3))
         ctx.count("exhaustive:list<=3keys", len(ex))
@@ -796,6 +995,11 @@ def run(ctx):
                     fl.append({"m": "filtered", "a": {"s": c["a"], "keys": list(sub)}})
         ctx.count("exhaustive:filtered<=2keys", len(fl))
         check_cases(ctx, fl)
+        # product of every pair of sweeps with <= 2 dimensions each (lists [0], [0, 1], [1, 1]; every dims value): all the
+        # branches of `ProductHyps` (receiver with / without dims, nominal or not, full branch or not) and the DF-07 shape
+        pr = list(exhaustive_products())
+        ctx.count("exhaustive:product<=2x2keys", len(pr))
+        check_cases(ctx, pr)
     n = ctx.n(8000, 120000)
     for i in range(0, n, 20000):
         check_cases(ctx, [make_case(ctx.rng) for _ in range(min(20000, n - i))])
